@@ -298,6 +298,8 @@ pub fn handles(_r: &dyn Runner, _tier: Tier, st: &St, out: &mut Vec<Edge>) {
         for lhs in 0..N_SWAP_KINDS { for rhs in 0..N_SWAP_KINDS { out.push(Edge::Swap { lhs, rhs, i }); } }
     }
     if len == 0 { for lhs in [0u8, 1, 5] { for rhs in [0u8, 1, 5] { out.push(Edge::Swap { lhs, rhs, i: 0 }); } } }
+    // a user-defined AnyValueMut implementor swapped with / pushed / inserted at every position
+    for op in 0..crate::exec_handles::N_USER_OPS { for i in 0..=len as u8 { out.push(Edge::UserValue { op, i }); } }
     // the i-th iterator item reached positionally (nth / nth_back / skip / rev().skip), also after advancing the front
     for op in crate::exec_range::adapt_ops() { if (op >> 3) & 7 <= 3 { for api in [Api::Erased, Api::Typed] { for kind in [IterKind::Iter, IterKind::IterMut] { out.push(Edge::IterAdapt { api, kind, op }); } } } }
 }
